@@ -39,7 +39,7 @@ TRANSPARENT = (
     'core::slice::iter::into_iter', 'core::future::future::Future::poll',
     # error_printer: log-and-return-self adaptors
     'error_printer::ErrorPrinter::debug_error', 'error_printer::ErrorPrinter::info_error', 'error_printer::ErrorPrinter::warn_error',
-    'error_printer::ErrorPrinter::log_error',
+    'error_printer::ErrorPrinter::log_error', 'cas_object::error::Validate::ok_for_format_error',
 )
 
 
@@ -245,7 +245,7 @@ class Flow:
             return ('un', r['op'], self.expr(r['a'], depth))
         if k == 'discr':
             p = r['p']
-            ty = self.lty(p['l']) if 'p' not in p else '?'
+            ty = r.get('pty') or (self.lty(p['l']) if 'p' not in p else '?')
             return ('discr', self.place(p, depth), ty)
         if k == 'agg':
             ak = r['ak']
